@@ -116,7 +116,8 @@ def explain(succ, proj, start, ops, obs):
                     if l2 == lab:
                         nxt.add(t)
             nxt = exits(nxt)
-        ok = {t for t in nxt if proj[t]["current"] == ob[0] and int(proj[t]["completed"]) == ob[1] and int(proj[t]["aborted"]) == ob[2]}
+        ok = {t for t in nxt if proj[t]["current"] == ob[0] and int(proj[t]["completed"]) == ob[1] and int(proj[t]["aborted"]) == ob[2]
+              and (len(ob) < 4 or ob[3] < 0 or proj[t]["refill"] == ob[3])}
         if not ok:
             return i, allowed, ob
         allowed = ok
@@ -185,15 +186,15 @@ def run(prop, tier, seed):
             json.dump({"property": prop, "kind": "barseq", "total": proj[r0]["total"], "ops": ops[:idx + 1], "observed": ob,
                        "allowed_before": [proj[s] for s in allowed]}, open(path_, "w"), default=str)
             if which == prop or prop == "C09":
-                lines.append("VIOLATION property=%s replay=%s rule=getters-disagree-with-BarState after %s got cur=%d completed=%d aborted=%d" % (
-                    prop, path_, ops[:idx + 1][-3:], ob[0], ob[1], ob[2]))
+                lines.append("VIOLATION property=%s replay=%s rule=getters-disagree-with-BarState after %s got cur=%d completed=%d aborted=%d refill=%s" % (
+                    prop, path_, ops[:idx + 1][-3:], ob[0], ob[1], ob[2], ob[3] if len(ob) > 3 and ob[3] >= 0 else "unobserved"))
         if prop == "C09":
             nviol = len(fails)
         else:
             nviol = sum(1 for (i, idx, allowed, ob) in fails if not all(proj[s]["phase"] == "live" for s in allowed))
         cov = {"states": st1 + st2, "transitions": tr1 + tr2, "traces_validated_against_impl": len(seqs),
                "samples": [{"total": s["total"], "ops": s["ops"], "observed": obs[s["id"]]} for s in seqs[:3]],
-               "evaluations": len(seqs), "distinct_nontrivial": len({json.dumps(s["ops"]) + str(s["total"]) for s in seqs if len(s["ops"]) > 1}),
+               "evaluations": len(seqs), "refill_marks_observed": sum(1 for s in seqs for o in obs[s["id"]] if len(o) > 3 and o[3] >= 0), "distinct_nontrivial": len({json.dumps(s["ops"]) + str(s["total"]) for s in seqs if len(s["ops"]) > 1}),
                "rule": "every transition of BarState.tla emitted by TLC (quick: a seeded sample of %d of %d) is replayed on a real bar as "
                        "BFS path + edge + up to 3 random further edges; non-trivial = at least two calls" % (limit, len(cand)),
                "exhaustive": tier == "thorough", "edges": len(cand), "spec_states": len(proj),
